@@ -20,6 +20,7 @@ import os
 from harness.common import Failure, Spec, coq_bytes, coq_list
 
 LINE_KINDS = ("lineonly", "line")
+APP_KINDS = ("lineapp", "intapp")        # receivers with a reacting application: harness/c16app.py
 INT_KINDS = {"int8": 1, "int16": 2, "int32": 4}
 
 
@@ -142,6 +143,9 @@ CHUNKINGS = [0]      # number of (stream, chunking) pairs delivered to the real 
 
 
 def impl(case) -> str:
+    if case["kind"] in APP_KINDS:
+        from harness import c16app
+        return c16app.impl(case, CHUNKINGS)
     if "family" in case:
         ms = list(members(case))
         CHUNKINGS[0] += len(ms)
@@ -221,6 +225,9 @@ def reference(kind, mx, delim, stream):
 
 
 def oracle(case, obs):
+    if case["kind"] in APP_KINDS:
+        from harness import c16app
+        return c16app.oracle(case, obs)
     if "family" in case:
         for m in members(case):
             f = oracle1(m, run_impl(*_parts(m)))
@@ -405,6 +412,9 @@ def gen(rng, tier):
             s = ns_stream(rng, mx, rng.randrange(1, 8))
         for _ in range(3):
             cases.append(mk(kind, mx, delim, random_split(rng, s)))
+    # 4. receivers with a reacting application (raw mode, mode switches, pause/resume, recvd)
+    from harness import c16app
+    cases += c16app.gen(rng, tier)
     return cases
 
 
@@ -424,6 +434,8 @@ def corpus():
         mk("int8", 3, b"", [b"\x03abc\x04abcd"]),
         mk("int32", 5, b"", [b"\x00\x00", b"\x00\x05hel", b"lo\xff\xff\xff\xffx"]),
     ]
+    from harness import c16app
+    out += c16app.corpus()
     d = os.path.join(os.path.dirname(os.path.dirname(os.path.abspath(__file__))), "corpus", "C16")
     if os.path.isdir(d):
         for f in sorted(os.listdir(d)):
@@ -438,6 +450,14 @@ def corpus():
 
 
 def to_coq(case):
+    if case["kind"] in APP_KINDS:
+        from harness import c16app
+        return c16app.to_coq(case)
+    t = to_coq_plain(case)
+    return None if t is None else f"inl ({t})"
+
+
+def to_coq_plain(case):
     kind, mx = case["kind"], case["max"]
     delim = bytes.fromhex(case.get("delim", ""))
     if mx >= 5000 or mx < 1:
@@ -458,6 +478,10 @@ def to_coq(case):
 
 
 def shrink(case):
+    if case["kind"] in APP_KINDS:
+        from harness import c16app
+        yield from c16app.shrink(case)
+        return
     if "family" in case:
         return
     chunks = case["chunks"]
@@ -480,10 +504,10 @@ def histogram(case, obs):
 SPEC = Spec(
     pid="C16",
     gen=gen, impl=impl, oracle=oracle, corpus=corpus, shrink=shrink,
-    coq_header="From TwLib Require Import PyBytes Seg.\nFrom C16 Require Import Model Run.",
-    coq_fn="run_case",
+    coq_header="From TwLib Require Import PyBytes Seg SegApp.\nFrom C16 Require Import Model ModelApp Run RunApp.",
+    coq_fn="run_any",
     to_coq=to_coq,
-    nontrivial=lambda c, o: ("family" in c or len(c["chunks"]) > 1) and not o.endswith("* |open") and o != " |open",
+    nontrivial=lambda c, o: ("family" in c or len(c.get("chunks", c.get("ops", []))) > 1) and not o.endswith("* |open") and o != " |open",
     extra=lambda ctx: {"chunkings_run": CHUNKINGS[0]},
     histogram=histogram,
     rule="per receiver (LineOnlyReceiver, LineReceiver line mode, Int8/16/32StringReceiver, NetstringReceiver): "
